@@ -54,6 +54,11 @@ def model_value(model, st, v, depth=0):
         return {k: model_value(model, st, x, depth + 1) for k, x in v.fields.items()}
     if isinstance(v, E.TupleV):
         return [model_value(model, st, x, depth + 1) for x in v.items]
+    if E.is_z3(v) and v.sort() == E.Str:
+        for name, c in E._str_consts.items():
+            if z3.is_true(model.eval(v == c, model_completion=True)):
+                return name
+        return "<other string>"
     if E.is_z3(v):
         r = model.eval(v, model_completion=True)
         if z3.is_int_value(r):
@@ -121,6 +126,20 @@ def verify(run, relpath, contract, fn_qual=None, contracts=None, fingerprint=Non
         cur = loop_headers(fn)
         if cur != fingerprint:
             stale_reason = f"loop structure differs from the contract's fingerprint: {cur} vs {fingerprint}"
+    # default argument values of callees are read from the current source (a changed default changes the call's meaning)
+    for cname, cc in (contracts or {}).items():
+        try:
+            cfn = index().find(relpath, cc.qualname)
+            args = cfn.args.args
+            dfl = cfn.args.defaults
+            cc.defaults = {}
+            for a, d in zip(args[len(args) - len(dfl):], dfl):
+                try:
+                    cc.defaults[a.arg] = ast.literal_eval(d)
+                except Exception:
+                    pass
+        except E.VCError:
+            pass
     exe = E.Executor(contract, fn, relpath, contracts=contracts or {}, timeout_ms=timeout_ms)
     try:
         obs = exe.run()
@@ -169,6 +188,7 @@ def verify(run, relpath, contract, fn_qual=None, contracts=None, fingerprint=Non
                     sol.add(f)
                 for f in bex["exe"].restrictions:
                     sol.add(f)
+                E.add_distinct(sol)
                 sol.add(z3.Not(cand.goal))
                 r = sol.check()
                 dt += time.time() - t1
